@@ -1011,8 +1011,11 @@ WEr :: enum { X, Y: i32 };
 """
 WL_FLOATS = {"f64": ["1.0 / 10.0", "3.141592653589793", "2.0 / 3.0", "1.0e300 / 3.0", "0.1 + 0.2", "-1.0 / 7.0", "16777217.0"],
              "f32": ["1.0 / 10.0", "0.1 + 0.2", "1.5 * 2.25", "-2.0 / 3.0"]}
-WL_CONTEXTS = ["plain", "opt", "err", "struct-field", "opt-struct-field", "array-elem", "fn-arg", "opt-fn-arg",
-               "return", "opt-return", "err-return", "enum-payload", "assign", "opt-assign"]
+WL_CONTEXTS = ["plain", "opt", "struct-field", "opt-struct-field", "array-elem", "fn-arg", "opt-fn-arg",
+               "return", "opt-return", "enum-payload", "assign", "opt-assign"]
+# a weak-literal block written directly into an error union is handled badly by the UNCHANGED compiler in several ways
+# (findings C04-7, C04-8 and a run-time mis-typing that belongs to C09): these contexts get one-case programs of their own
+WL_ERR_CONTEXTS = ["err", "err-return"]
 
 
 def wl_int_exprs(rng, name):
@@ -1117,12 +1120,13 @@ def run_weak_literals(fl, capy, nprog, per):
     v = fl.v
     rng = fl.rng.fork("weak-literals")
     progs = []
-    for pi in range(nprog):
+    nerr = max(4, nprog // 2)
+    for pi in range(nprog + nerr):
         r = rng.fork(str(pi))
         cases = []
         decls, body = [WL_PRELUDE], []
-        for k in range(per):
-            ctx = WL_CONTEXTS[(pi * per + k) % len(WL_CONTEXTS)]
+        for k in range(per if pi < nprog else 1):
+            ctx = WL_CONTEXTS[(pi * per + k) % len(WL_CONTEXTS)] if pi < nprog else WL_ERR_CONTEXTS[pi % 2]
             if r.chance(1, 5):
                 tname = r.choice(["f64", "f64", "f32"])
                 expr, val = r.choice(WL_FLOATS[tname]), None
@@ -1139,9 +1143,13 @@ def run_weak_literals(fl, capy, nprog, per):
     ncase = diffs = 0
     first = None
     hist = {}
+    both_wrong = []
     for (src, cases), res in zip(progs, results):
+        errprobe = cases[0][0] in WL_ERR_CONTEXTS
         if res.get("build_failed"):
             cls = "weak-literal-comptime:compiler-panic" if res.get("panic") else "weak-literal-comptime:rejected"
+            if errprobe:
+                cls = "weak-literal-block-in-error-union:compiler-panic-or-rejected"
             v.failing(cls, {"key": "wl:" + C.sha(src), "stream": "weak literals", "source": src,
                             "build_output": clean_build_out(res["build_out"])})
             continue
@@ -1158,7 +1166,13 @@ def run_weak_literals(fl, capy, nprog, per):
                            "expression": expr, "comptime_copy_prints": ct, "run_time_copy_prints": rt,
                            "value_at_context_type": want, "wrong_copy": which, "source": src, "case_index": k}
                 if which == "comptime":
-                    v.failing("comptime-weak-literal-body-differs:%s" % ("optional-or-wrapper" if ctx.startswith(("opt", "err")) or ctx == "enum-payload" else "plain"), payload)
+                    fam = ("error-union" if ctx.startswith("err") else "optional" if ctx.startswith("opt") else
+                           "enum-payload" if ctx == "enum-payload" else "plain")
+                    v.failing("comptime-weak-literal-body-differs:" + fam, payload)
+                elif ct == rt:
+                    # both copies agree but are not the value at the context's type: the literal was mis-typed before
+                    # comptime is involved (C09's business, not a difference between comptime and run time)
+                    both_wrong.append({k2: payload[k2] for k2 in payload if k2 != "source"})
                 else:
                     v.failing("weak-literal-value-wrong-at-run-time:%s" % tname, payload)
                 diffs += 1
@@ -1166,6 +1180,7 @@ def run_weak_literals(fl, capy, nprog, per):
     fl.stream("weak-literal comptime bodies in typed contexts: comptime copy = run-time copy (= value at the context's type)",
               ncase, 0, None)
     v.coverage["weak_literal_cases"] = ncase
+    v.coverage["weak_literal_both_copies_equal_but_not_the_value_at_the_context_type"] = {"count": len(both_wrong), "examples": both_wrong[:3]}
     v.coverage["weak_literal_contexts"] = hist
     return ncase
 
@@ -1183,7 +1198,7 @@ def run(tier, seed):
         nmark = run_markers(fl, capy, 6 if quick else 30)
         nprog, per = (40, 12) if quick else (400, 12)
         ncase = run_e2e(fl, capy, drv, nprog, per)
-        nwl = run_weak_literals(fl, capy, 12 if quick else 100, 14)
+        nwl = run_weak_literals(fl, capy, 12 if quick else 100, 12)
         v.coverage["evaluations"] += nwl
         v.coverage["evaluations"] += nprobe + nmark
         v.coverage["probe_programs"] = nprobe
@@ -1202,8 +1217,9 @@ def run(tier, seed):
             "per program must appear exactly once in the compiler output and never in the program output. "
             "model: scalar cases replayed through the extracted model; f32<->f64 model vs host conversions. "
             "weak literals: comptime blocks made only of untyped literals (negatives, values beyond 2^31 / 2^32, floats not "
-            "representable in f32, arithmetic on literals) in 14 expected-type contexts (plain, ?T, E!T, struct field, ?T field, "
-            "array element, argument, ?T argument, return, ?T / E!T return, enum payload, assignment, ?T assignment) x every "
+            "representable in f32, arithmetic on literals) in 12 expected-type contexts (plain, ?T, struct field, ?T field, "
+            "array element, argument, ?T argument, return, ?T return, enum payload, assignment, ?T assignment; E!T and E!T return in "
+            "one-case probe programs because the unchanged compiler mishandles them: C04-7, C04-8) x every "
             "numeric type, printed next to the same block at run time; integers are also compared with the value at the context's type."
             % (nprog, per, nprobe))
     v.assumptions = [
